@@ -135,6 +135,7 @@ class Geo:
         self.sd = sd
         self.desc = desc = sd['shape']
         self.kind = desc['kind']
+        self.st = desc['kind'] + ('-conicbase' if desc['kind'] == 'q2d' and desc.get('k', 0.0) != 0 else '')
         self.typ = sd['typ']
         self.nprime = float(sd.get('n', 1.0))
         self.Pv = ref_Pvec(sd['P'])
@@ -281,6 +282,9 @@ def idx_class(n0, n1):
     return 'lt' if n0 < n1 else ('gt' if n0 > n1 else 'eq')
 
 
+STATS = {}     # development aid: largest error / tolerance ratio seen per clause (read by nobody at run time)
+
+
 def worst(err, ok_mask, tol):
     """(passes, index of the worst offender) of err <= tol over ok_mask; non-finite counts as failing."""
     e = np.where(np.isfinite(err), err, np.inf)
@@ -289,6 +293,12 @@ def worst(err, ok_mask, tol):
         return True, -1
     i = int(np.argmax(e))
     return bool(e[i] <= tol), i
+
+
+def stat(name, err, mask, tol=1.0):
+    e = np.where(mask & np.isfinite(err), err, 0.0)
+    if e.size:
+        STATS[name] = max(STATS.get(name, 0.0), float(e.max()) / tol)
 
 
 # ---------------------------------------------------------------------------------------------
@@ -300,7 +310,7 @@ def judge_hop(R, g, n0, Pin, Sin, Pout, Sout, live, hop, tally):
     Pin, Sin   : validated incoming rays (global), (N,3)
     Pout, Sout : the implementation's outputs after the surface (global), (N,3), validated shape only
     """
-    st = g.kind
+    st = g.st
     N = Pin.shape[0]
     n1 = g.nprime
     refr = g.typ == 'refr'
@@ -340,7 +350,15 @@ def judge_hop(R, g, n0, Pin, Sin, Pout, Sout, live, hop, tally):
         with np.errstate(invalid='ignore'):
             rr = p[:, None, :] + np.where(np.isfinite(roots), roots, 0)[:, :, None] * d[:, None, :]
             axis = ((np.hypot(rr[..., 0], rr[..., 1]) < 1e-12) & np.isfinite(roots)).any(axis=1) | (np.hypot(p1[:, 0], p1[:, 1]) < 1e-12)
-        for lab, m in (('axis:nan', bad & axis), ('nan', bad & ~axis)):
+        # Newton stall: one ulp of z divided by a grazing S.r (r = un-normalised gradient) is not below the
+        # iteration's absolute tolerance of 100 eps, so a ray converged to round-off can never pass the test
+        with np.errstate(all='ignore'):
+            fx, fy = richardson_grad(g.sag, rr[..., 0].ravel(), rr[..., 1].ravel()) if g.isq else \
+                conic_grad(g.c, g.k, g.dx, g.dy, rr[..., 0].ravel(), rr[..., 1].ravel())
+            Fp = d[:, None, 2] - fx.reshape(N, 2) * d[:, None, 0] - fy.reshape(N, 2) * d[:, None, 1]
+            amp = np.spacing(np.abs(rr[..., 2])) / np.abs(Fp)
+            stall = (np.where(np.isfinite(roots), amp, 0.0) >= 100 * EPS / 16).any(axis=1) & ~axis
+        for lab, m in (('axis:nan', bad & axis), ('newton:stall', bad & stall), ('nan', bad & ~axis & ~stall)):
             if m.any():
                 i = int(np.nonzero(m)[0][0])
                 R.expect(False, f'{lab}:{st}', f'{int(m.sum())} ray(s) that geometrically hit the surface came back non-finite; ' + ray(i))
@@ -364,6 +382,7 @@ def judge_hop(R, g, n0, Pin, Sin, Pout, Sout, live, hop, tally):
                                 (e_line, 1.0, f'online:{st}', 'traced point is not on the incoming ray: distance/tol'),
                                 (e_root, TOL_ROOT * 100, f'root:{st}', 'ray parameter differs from every reference intersection: |s - s_ref|')):
         ok, i = worst(err, j, tol)
+        stat(sig.split(':')[0] + (':q' if g.isq else ''), err, j, tol)
         R.expect(ok, sig, f'{what} = {float(np.where(np.isfinite(err), err, np.inf)[i]):.3e}; ' + ray(i))
         good &= np.where(np.isfinite(err), err, np.inf) <= tol
     R.nontrivial(bool((j & (np.hypot(qs[:, 0], qs[:, 1]) > 1e-3)).any()))
@@ -408,6 +427,7 @@ def judge_hop(R, g, n0, Pin, Sin, Pout, Sout, live, hop, tally):
     sos = np.where(j2[:, None], so, 0.0)
     e_unit = np.abs(np.linalg.norm(sos, axis=1) - 1)
     ok, i = worst(e_unit, j2, 1e3 * EPS)
+    stat('unit', e_unit, j2, 1e3 * EPS)
     R.expect(ok, f'{kind}:unit:{st}', f'outgoing direction cosines are not of unit length: | |S\'| - 1 | = {e_unit[i]:.3e}; ' + ray(i))
     unit_ok = e_unit <= 1e3 * EPS
     good &= unit_ok
@@ -417,6 +437,7 @@ def judge_hop(R, g, n0, Pin, Sin, Pout, Sout, live, hop, tally):
     e_vec = np.abs(sos - want).max(axis=1) / told
     if not refr:
         ok, i = worst(e_vec, j3, 1.0)
+        stat('reflect' + (':q' if g.isq else ''), e_vec, j3)
         R.expect(ok, f'reflect:law:{st}', f'S\' != S - 2 (S.n) n with the true unit normal: max|err|/tol = {e_vec[i]:.3e} '
                                           f'(want local {want[i].tolist()} got local {sos[i].tolist()}); ' + ray(i))
         good &= e_vec <= 1.0
@@ -430,12 +451,13 @@ def judge_hop(R, g, n0, Pin, Sin, Pout, Sout, live, hop, tally):
         e_snell = np.abs(n0 * sin_i - n1 * sin_o) / (told * max(n0, n1))
         e_copl = np.abs(np.einsum('ij,ij->i', sos, np.cross(d, nh))) / told
         side = np.einsum('ij,ij->i', sos, nh) * cosI
-        e_side = np.where(side > 0, 0.0, 1.0)
+        e_side = np.where(side > 0, 0.0, 2.0)
         for err, sig, what in ((e_snell, f'refract:snell:{st}:{ic}:{lab}', f'n sin i != n\' sin i\' (n={n0}, n\'={n1}): |err|/tol'),
                                (e_copl, f'refract:coplanar:{st}:{ic}:{lab}', 'S\' is not in the plane of incidence: |S\'.(S x n)|/tol'),
                                (e_side, f'refract:side:{lab}', 'the refracted ray does not continue through the surface: sign(S\'.n) != sign(S.n)'),
                                (e_vec, f'refract:vector:{st}:{ic}:{lab}', 'S\' != mu S + (sgn sqrt(1 - mu^2 (1 - cos^2 I)) - mu cos I) n: max|err|/tol')):
             ok, i = worst(err, m, 1.0)
+            stat(':'.join(sig.split(':')[:2]) + (':q' if g.isq else ''), err, m)
             extra = f' (want local {want[i].tolist()} got local {sos[i].tolist()})' if err is e_vec else ''
             R.expect(ok, sig, f'{what} = {err[i]:.3e}{extra}; ' + ray(i))
             good &= ~m | (err <= 1.0)
@@ -604,7 +626,7 @@ def sdesc(shape, pose, t):
 def run_refmodel(case, seed, R):
     """Second formulation of the reference normal + the library's sag against the closed form."""
     g = Geo({'shape': case['shape'], 'P': 0.0, 'R': None, 'typ': 'refl'}, seed)
-    st = g.kind
+    st = g.st
     lat = np.linspace(-12, 12, 9)
     x, y = [a.ravel() for a in np.meshgrid(lat + 0.0, lat + 0.0)]
     z = g.sag(x, y)
@@ -640,7 +662,7 @@ def run_refmodel(case, seed, R):
             nrm = np.linalg.norm(der, axis=1)
             with np.errstate(all='ignore'):
                 nh = der / nrm[:, None]
-            R.expect_close(nh[off], g.normal(x, y)[off], (TOL_DQ if g.isq else TOL_D), f'normal:{st}' + (':k!=0' if g.isq and g.k != 0 else ''),
+            R.expect_close(nh[off], g.normal(x, y)[off], (TOL_DQ if g.isq else TOL_D), f'normal:{st}',
                            'direction of Surface.sag_normal vs reference unit normal')
     R.tick(g.ticks)
     R.nontrivial(st != 'plane')
@@ -762,7 +784,7 @@ def run_single1d(case, seed, R):
 def run_axis(case, seed, R):
     """The ray along the local axis through the local origin, and its neighbours."""
     g = Geo(case['surf'], seed)
-    st = g.kind
+    st = g.st
     delta = 1e-4
     ez = g.Rm.T @ np.array([0.0, 0.0, 1.0])
     ex = g.Rm.T @ np.array([1.0, 0.0, 0.0])
